@@ -219,7 +219,7 @@ theorem compile_order (env : Env) (η : Hp) (file : AFile) (n0 : Nat) (G : List 
          BlockS (goFilePreSt env file n0).1 gρ gw (letPrefix env st x v ++ rest) (.fail (.panic k) gw1) ∧ WRel env η1 w1 gw1
      | _ => True) :=
   ⟨compileA_let env m st x v body ty,
-   let_order (sim_all (link_of_closed hG hP) fuel).v (sim_all (link_of_closed hG hP) fuel).c m st x v body ty Γ K ρ w gρ gw Bad
+   let_order (sim_all (link_of_closed hG hP) fuel).v (sim_all (link_of_closed hG hP) fuel).c (sim_all (link_of_closed hG hP) fuel).g m st x v body ty Γ K ρ w gρ gw Bad
      h.frag h.envs h.known h.worlds h.names h.blank h.fns h.callees⟩
 
 /-- operands keep their ANF order in the emitted expression (`Go.Sem` evaluates `l` before `r`, and
@@ -482,6 +482,27 @@ example : noConstE (compileCExpr {} (.bin .add (litI 2147483647) (litI 1) t32)) 
     simp [compileCExpr, compileImm, lit, litI, t32, goTy, noConstE, constG, constOpOK, intLitG, toString_toInt, gBin] <;> decide
 example : noConstExpr {} { n := 0, ok := true } exInc = true := by decide +kernel
 example : ¬ InGoFragment {} [exConstF] 0 exConstF := by unfold InGoFragment; decide +kernel
+/-- `go` is inside: `go f` for a lambda-lifted closure `f` is the statement `go apply(env)`; under the eager schedule both
+    sides run it at the `go`, under the other both only record it -/
+private def envG : Env :=
+  { structs := [{ name := "closure_env_main_0", generics := [], fields := [] }],
+    structsLookup := [{ name := "closure_env_main_0", generics := [], fields := [] }],
+    applyTys := [("closure_env_main_0", some (.func [.struct "closure_env_main_0"] .unit))] }
+private def tEnv : Ty := .struct "closure_env_main_0"
+private def exApplyG : AFn :=
+  { name := "inherent#closure_env_main_0#closure_env_main_0#apply", params := [("env0", tEnv)], ret := .unit,
+    body := .ret (.call (.var "string_println" (.func [.string] .unit)) [.prim (.str "spawned") .string] .unit) }
+private def exMainG : AFn :=
+  { name := "main", params := [], ret := .unit,
+    body :=
+      .letE "t1" (.constr (.struct "closure_env_main_0") [] tEnv)
+      (.letE "_wild2" (.go (.var "t1" tEnv) .unit)
+      (.ret (.call (.var "string_println" (.func [.string] .unit)) [.prim (.str "main") .string] .unit)) .unit) .unit }
+private def exFileG : AFile := [exApplyG, exMainG]
+example : InGoFragment envG exFileG 0 exApplyG ∧ InGoFragment envG exFileG 0 exMainG := by
+  constructor <;> (unfold InGoFragment; decide +kernel)
+example : (Sem.run 200 (progOf exFileG)).out = "spawned\nmain\n" ∧ (Sem.run 200 (progOf exFileG) "main" false).out = "main\n" := by
+  decide +kernel
 end Examples
 
 end Goml.GoCompileProps
